@@ -83,3 +83,23 @@ def canon_thm(x):
     """hyps as a sorted set of name-erased terms"""
     hyps = sorted({dumps(canon_term(h)) for h in x[1]})
     return ("thm", tuple(hyps), dumps(canon_term(x[2])))
+
+
+def arg_to(args):
+    """Argument of a proof item as the model's `Arg`: (none) | (term T) | (tyinst ..) | (inst ..) for
+    the kinds `primitive_deriv` knows (decided with isinstance, as the checker does), and
+    (other KIND) for anything else — a Thm, a string, a number, a tuple, a malformed Inst …"""
+    from kernel.term import Term, Inst
+    from kernel.type import TyInst
+    if args is None:
+        return ["none"]
+    try:
+        if isinstance(args, Inst):
+            return inst_to(args)
+        if isinstance(args, TyInst):
+            return ["tyinst", tyinst_to(args)]
+        if isinstance(args, Term):
+            return ["term", term_to(args)]
+    except Exception:  # noqa  (an Inst/TyInst whose contents are not terms/types)
+        return ["other", enc("malformed-" + type(args).__name__)]
+    return ["other", enc(type(args).__name__)]
